@@ -794,3 +794,48 @@ def k_history(p):
 
 
 KINDS.update({"history": k_history})
+
+
+def k_capacity(p):
+    """C17 on a concrete graph: upper bound 2, arc-less 0, regular graphs log2 d (deterministic mode), and -- when the graph
+    meets the structural precondition -- accuracy of the requested mode against numpy's spectral radius."""
+    import dsw
+    rows = p["acc"]
+    acc = np.array(rows, dtype=int)
+    N = len(rows)
+    repeats = int(p.get("repeats", 1))
+    np.random.seed(int(p.get("seed", 0)))
+    r, ex = call(dsw.approximate_capacity, acc, repeats=repeats)
+    if ex is not None:
+        return True, "approximate_capacity raised %s" % ex
+    r = float(r)
+    if r > 2 + 1e-9:
+        return True, "capacity %r exceeds 2 bits per nucleotide" % r
+    if all(x < 0 for row in rows for x in row):
+        return (True, "arc-less graph gives %r" % r) if r != 0.0 else (False, "0 for the arc-less graph")
+    live = [v for v in range(N) if any(x >= 0 for x in rows[v])]
+    degs = set(sum(1 for x in rows[v] if x >= 0 and x in live) for v in live)
+    closed = all(x < 0 or x in live for v in live for x in rows[v])
+    if repeats == 1 and closed and len(degs) == 1:
+        d = degs.pop()
+        if abs(r - np.log2(d)) > 1e-12:
+            return True, "every live vertex has %d live successors but the deterministic mode returns %r, not log2 %d" % (d, r, d)
+    if p.get("want") == "accuracy":
+        import networkx as nx
+        A = np.zeros((N, N))
+        G = nx.DiGraph()
+        for v in range(N):
+            for x in rows[v]:
+                if x >= 0:
+                    A[v][x] = 1
+                    G.add_edge(v, x)
+        mods = sorted(abs(np.linalg.eigvals(A)), reverse=True)
+        sccs = [c for c in nx.strongly_connected_components(G) if len(c) > 1 or any(G.has_edge(u, u) for u in c)]
+        if len(sccs) != 1 or not nx.is_aperiodic(G.subgraph(list(sccs)[0])) or mods[1] > 0.9 * mods[0]:
+            return False, "structural precondition (single aperiodic SCC, spectral gap) not met: outside the property"
+        if abs(r - np.log2(mods[0])) > 1e-4:
+            return True, "repeats=%d returns %.6f, log2 of the spectral radius is %.6f" % (repeats, r, np.log2(mods[0]))
+    return False, "ok (%r)" % r
+
+
+KINDS.update({"capacity": k_capacity})
